@@ -312,6 +312,19 @@ def defaultKeys (es : TopoEs) (value : Val) : List String :=
     if AL.has "*" es then [] else (KV.keys vkvs).filter (fun k => !(AL.has k es) && k != "_path")
   | _ => []
 
+/-- the default entries `path[update_key] = (update_key,)` of a `_path` dictionary, processed
+after the dictionary's own entries (they are appended to the copy, in the update's order) -/
+def invDefaults (pes : TopoEs) (inner : Path) (value : Val) (inv : Val) : Except Err Val :=
+  (defaultKeys pes value).foldlM
+    (fun acc k =>
+      match value with
+      | .dict vkvs =>
+        match KV.lookup k vkvs with
+        | some x => invTuple inner [k] x acc
+        | Option.none => .ok acc
+      | _ => .ok acc) inv
+
+mutual
 /-- `inverse_topology(outer, update, topology, inverse)` — the loop over `topology.items()`.
 `skip`: the entry `_path` has been popped from (a copy of) this dictionary. -/
 def inverse : TopoEs → (skip : Bool) → (outer : Path) → (update : Val) → (inv : Val) →
@@ -320,53 +333,44 @@ def inverse : TopoEs → (skip : Bool) → (outer : Path) → (update : Val) →
   | (key, path) :: rest, skip, outer, update, inv =>
     let here : Except Err Val :=
       if skip && key == "_path" then .ok inv
-      else if key = "*" then
-        match update with
-        | .dict ukvs =>
-          match path with
-          | .dict pes =>
-            match popPath pes with
-            | .error e => .error e
-            | .ok (op, _) =>
-              let inner := match op with
-                | some p => normalize (outer ++ p)
-                | Option.none => outer
-              foldChildren (fun child cu inv => inverse pes true (inner ++ [child]) cu inv) ukvs inv
-          | .path p => foldChildren (invGlobChild outer p) ukvs inv
-        | _ => .error .attributeError
       else
         match update with
         | .dict ukvs =>
-          match KV.lookup key ukvs with
-          | Option.none => .ok inv
-          | some value =>
-            match path with
-            | .dict pes =>
-              match popPath pes with
-              | .error e => .error e
-              | .ok (some p, _) =>
-                match value with
-                | .dict _ =>
-                  let inner := normalize (outer ++ p)
-                  match inverse pes true inner value inv with
-                  | .error e => .error e
-                  | .ok inv' =>
-                    -- the keys appended to the copy of `path`, in the update's order
-                    (defaultKeys pes value).foldlM
-                      (fun acc k =>
-                        match value with
-                        | .dict vkvs =>
-                          match KV.lookup k vkvs with
-                          | some x => invTuple inner [k] x acc
-                          | Option.none => .ok acc
-                        | _ => .ok acc) inv'
-                | _ => .error .attributeError     -- `update[key].keys()`
-              | .ok (Option.none, _) => inverse pes false outer value inv
-            | .path p => invTuple outer p value inv
-        | _ => .error .typeError     -- `key in update` on a number
+          if key = "*" then inverseGlob path outer ukvs inv
+          else
+            match KV.lookup key ukvs with
+            | Option.none => .ok inv          -- `elif key in update` is false
+            | some value => inverseValue path outer value inv
+        | _ => if key = "*" then .error .attributeError else .error .typeError
     match here with
     | .ok inv' => inverse rest skip outer update inv'
     | .error e => .error e
+/-- the branch `key == '*'`: every key of the update is a child of the glob store -/
+def inverseGlob : Topo → (outer : Path) → (ukvs : KVs) → (inv : Val) → Except Err Val
+  | .dict pes, outer, ukvs, inv =>
+    match popPath pes with
+    | .error e => .error e
+    | .ok (op, _) =>
+      let inner := match op with
+        | some p => normalize (outer ++ p)
+        | Option.none => outer
+      foldChildren (fun child cu inv => inverse pes true (inner ++ [child]) cu inv) ukvs inv
+  | .path p, outer, ukvs, inv => foldChildren (invGlobChild outer p) ukvs inv
+/-- the branch `key in update` with `value = update[key]` -/
+def inverseValue : Topo → (outer : Path) → (value : Val) → (inv : Val) → Except Err Val
+  | .dict pes, outer, value, inv =>
+    match popPath pes with
+    | .error e => .error e
+    | .ok (some p, _) =>
+      match value with
+      | .dict _ =>
+        match inverse pes true (normalize (outer ++ p)) value inv with
+        | .error e => .error e
+        | .ok inv' => invDefaults pes (normalize (outer ++ p)) value inv'
+      | _ => .error .attributeError     -- `update[key].keys()`
+    | .ok (Option.none, _) => inverse pes false outer value inv
+  | .path p, outer, value, inv => invTuple outer p value inv
+end
 
 /-- `invert_topology(update, (path, topology))`: `path[:-1]` is `outer` -/
 def invertTopology (outer : Path) (topo : TopoEs) (update : Val) : Except Err Val :=
